@@ -32,6 +32,8 @@ type C16Case struct {
 	// NoServer: no OpenRGB server is reachable, every LED goroutine stays in its connect/retry phase. Device 0 stays
 	// connected for 1.6 s; the others end early and must not have to wait for it.
 	NoServer bool `json:"no_server,omitempty"`
+	// Busy: per device, how long (ms) the reader of its MIDI output is busy when its event stream ends (0 = reads all the time)
+	Busy []int `json:"busy,omitempty"`
 }
 
 var raceLogOffsets = map[string]int64{}
@@ -108,6 +110,13 @@ func flatten(ms [][]byte) []string {
 	return out
 }
 
+func (c *C16Case) busyFor(i int) int {
+	if c.NoServer || i >= len(c.Busy) {
+		return 0
+	}
+	return c.Busy[i]
+}
+
 func checkC16(c C16Case) (nontrivial bool, v *Violation) {
 	n := len(c.Hist)
 	events := map[int]string{}
@@ -167,6 +176,7 @@ func checkC16(c C16Case) (nontrivial bool, v *Violation) {
 		problem    *Violation
 		framesSeen bool
 		heldAtCut  bool
+		busy       bool
 	}
 	res := make([]devRes, n)
 	var wg sync.WaitGroup
@@ -228,6 +238,26 @@ func checkC16(c C16Case) (nontrivial bool, v *Violation) {
 			if phase == "no-server-long" {
 				time.Sleep(1600 * time.Millisecond)
 			}
+			if busy := c.busyFor(i); busy > 0 {
+				pre := drain(ld.out)
+				b := busyDisconnect(ld.in, ld.out, ld.done, busy, 15*time.Second)
+				switch {
+				case b.Stuck:
+					res[i].problem = violation("C16", "no-prompt-termination", "busy-receiver", "device %d: ProcessEvents had not returned 15 s after its event stream ended (the reader of its MIDI output was busy for the first %d ms only)\n%s", i, busy, firstLines(allStacks(), 100))
+					return
+				case b.Panic != "":
+					res[i].problem = violation("C16", "panic", "", "device %d panicked: %s", i, b.Panic)
+				case len(b.Late) > 0:
+					res[i].problem = violation("C16", "background-activity-left", "emits-after-end", "device %d: %s emitted after ProcessEvents had returned (the reader of its MIDI output was busy for %d ms when the stream ended)", i, fmtMsgs(b.Late), busy)
+				}
+				res[i].returnedIn = b.ReturnedIn - time.Duration(busy)*time.Millisecond
+				if err := fan.DespawnOutput(id); err != nil {
+					res[i].problem = violation("C16", "despawn", "", "device %d: %v", i, err)
+				}
+				res[i].out = append(pre, b.Tail...)
+				res[i].busy = true
+				return
+			}
 			t0 := time.Now()
 			close(ld.in)
 			select {
@@ -276,6 +306,7 @@ func checkC16(c C16Case) (nontrivial bool, v *Violation) {
 		if res[i].framesSeen && res[i].heldAtCut {
 			nontrivial = true
 		}
+		classifyIf(res[i].busy && res[i].heldAtCut, "stream ends with notes held while the MIDI output is not being read")
 		if c.NoServer {
 			classify("no server reachable")
 			if n > 1 {
@@ -372,6 +403,11 @@ func genC16(t *rapid.T) C16Case {
 			}
 		}
 		c.Hist = append(c.Hist, hs)
+		busy := 0
+		if rapid.IntRange(0, 4).Draw(t, "busyReceiver") == 0 {
+			busy = rapid.IntRange(550, 900).Draw(t, "busyMs")
+		}
+		c.Busy = append(c.Busy, busy)
 		c.Phase = append(c.Phase, rapid.SampledFrom([]string{"before-connect", "during-discovery", "running", "running", "between-frames", "after-key", "after-key"}).Draw(t, "phase"))
 		c.Delay = append(c.Delay, rapid.IntRange(0, 1000).Draw(t, "delay"))
 	}
